@@ -520,8 +520,16 @@ pub (crate) fn bid_add_and_round(
                             is_inexact_lt_midpoint = true;
                         },
                         value if R128.w[0] == value => { // = 1/2 ulp
-                            eq_half_ulp         = true;
-                            is_midpoint_gt_even = true;
+                            // the once-rounded value equals 1/2 ulp: if that first rounding was inexact, it (not the tie) decides
+                            if is_inexact_lt_midpoint0 || is_midpoint_gt_even0 { // the exact value is above it: > 1/2 ulp
+                                is_inexact_gt_midpoint = true;
+                            } else if is_inexact_gt_midpoint0 || is_midpoint_lt_even0 { // the exact value is below it: < 1/2 ulp
+                                lt_half_ulp            = true;
+                                is_inexact_lt_midpoint = true;
+                            } else {
+                                eq_half_ulp         = true;
+                                is_midpoint_gt_even = true;
+                            }
                         },
                         _ => { // > 1/2 ulp
                             // gt_half_ulp = 1;
@@ -536,8 +544,16 @@ pub (crate) fn bid_add_and_round(
                         is_inexact_lt_midpoint = true;
                     } else if R128.w[1] == BID_MIDPOINT128[(ind - 20) as usize].w[1]
                            && R128.w[0] == BID_MIDPOINT128[(ind - 20) as usize].w[0] { // = 1/2 ulp
-                        eq_half_ulp         = true;
-                        is_midpoint_gt_even = true;
+                        // the once-rounded value equals 1/2 ulp: if that first rounding was inexact, it (not the tie) decides
+                        if is_inexact_lt_midpoint0 || is_midpoint_gt_even0 { // the exact value is above it: > 1/2 ulp
+                            is_inexact_gt_midpoint = true;
+                        } else if is_inexact_gt_midpoint0 || is_midpoint_lt_even0 { // the exact value is below it: < 1/2 ulp
+                            lt_half_ulp            = true;
+                            is_inexact_lt_midpoint = true;
+                        } else {
+                            eq_half_ulp         = true;
+                            is_midpoint_gt_even = true;
+                        }
                     } else { // > 1/2 ulp
                         // gt_half_ulp = 1;
                         is_inexact_gt_midpoint = true;
@@ -3734,8 +3750,17 @@ pub (crate) fn bid128_ext_fma(
                                     is_inexact_lt_midpoint = true;
                                 },
                                 value if R128.w[0] == value => { // = 1/2 ulp
-                                    eq_half_ulp         = true;
-                                    is_midpoint_gt_even = true;
+                                    // the once-rounded value equals 1/2 ulp: if that first rounding was inexact, it (not the tie) decides
+                                    if is_inexact_lt_midpoint0 || is_midpoint_gt_even0 { // the exact value is above it: > 1/2 ulp
+                                        gt_half_ulp            = true;
+                                        is_inexact_gt_midpoint = true;
+                                    } else if is_inexact_gt_midpoint0 || is_midpoint_lt_even0 { // the exact value is below it: < 1/2 ulp
+                                        lt_half_ulp            = true;
+                                        is_inexact_lt_midpoint = true;
+                                    } else {
+                                        eq_half_ulp         = true;
+                                        is_midpoint_gt_even = true;
+                                    }
                                 },
                                 _ => { // > 1/2 ulp
                                     gt_half_ulp            = true;
@@ -3750,8 +3775,17 @@ pub (crate) fn bid128_ext_fma(
                                 is_inexact_lt_midpoint = true;
                             } else if R128.w[1] == BID_MIDPOINT128[(ind - 20) as usize].w[1]
                                    && R128.w[0] == BID_MIDPOINT128[(ind - 20) as usize].w[0] { // = 1/2 ulp
-                                eq_half_ulp         = true;
-                                is_midpoint_gt_even = true;
+                                // the once-rounded value equals 1/2 ulp: if that first rounding was inexact, it (not the tie) decides
+                                if is_inexact_lt_midpoint0 || is_midpoint_gt_even0 { // the exact value is above it: > 1/2 ulp
+                                    gt_half_ulp            = true;
+                                    is_inexact_gt_midpoint = true;
+                                } else if is_inexact_gt_midpoint0 || is_midpoint_lt_even0 { // the exact value is below it: < 1/2 ulp
+                                    lt_half_ulp            = true;
+                                    is_inexact_lt_midpoint = true;
+                                } else {
+                                    eq_half_ulp         = true;
+                                    is_midpoint_gt_even = true;
+                                }
                             } else { // > 1/2 ulp
                                 gt_half_ulp            = true;
                                 is_inexact_gt_midpoint = true;
